@@ -84,6 +84,9 @@ def make_callables(params, tag, postponed=False):
     names = [n for n, _, _, _ in params]
     rec = "{" + ", ".join(f"{n!r}: {n}" for n in names) + "}"
     sep = ", " if text else ""
+    # every other signature: the classes to be bound / wrapped also define __call__ (their instances can be called, which makes
+    # the class a virtual subclass of collections.abc.Callable); what bind/wrap deal with is the constructor all the same
+    call_too = "    def __call__(self, z: int = 0):\n        return z\n" if len(params) % 2 else ""
     src = f'''
 def fn({text}):
     """doc of fn"""
@@ -115,11 +118,11 @@ class Cls:
     """doc of Cls"""
     def __init__(self{sep}{text}):
         self.rec = {rec}
-
+{call_too}
 class Cls2:
     def __init__(self{sep}{text}):
         self.rec = {rec}
-
+{call_too}
 class Raw:
     def __init__(self{sep}{text}):
         self.rec = {rec}
